@@ -113,7 +113,8 @@ def finish(prop, tier, seed, level, results, t0, functions, assumptions, trusted
     drift = None
     if base is not None and sorted(base) != names:
         missing = sorted(set(base) - set(names)); extra = sorted(set(names) - set(base))
-        drift = {"missing": missing, "extra": extra}
+        # the baseline lists the quick tier's obligations; the thorough tier adds obligations (wider windows, larger bounds) on top of them
+        if missing or (extra and tier != "thorough"): drift = {"missing": missing, "extra": extra}
     lines = []
     for r in sorted(results, key=lambda r: r.name):
         tag = {"discharged": "ok ", "vacuity-ok": "ok ", "ok": "ok ", "refuted": "REFUTED"}.get(r.status, "UNDECIDED")
